@@ -302,11 +302,9 @@ def judge_projection(run, sessions, res, limit=5):
                                                  "counts": [len(exp), len(got)]}))
 
 
-def scale_check(run, seen, tag):
-    """one output with more than 65536 blocks (max_block_items = 1), and one query/response whose sections hold more than 65536
-    resource records / questions, and one with byte strings of 12 MiB: counters, the library reader's view and the framing of the file (independent CBOR walk) must be
-    what the reference says.  (The Lean reader is not used here: it needs minutes on a file of 70 000 blocks.)"""
-    import cborgen, refexp
+def scale_sessions():
+    """the sessions of scale_check (also read by C03 as valid large inputs)"""
+    import refexp
     fp = {"maj": 1, "min": 0}
     n = 65540
     many_blocks = refexp.make_session(fp, [{"tps": 1000, "max": 1, "qrh": 4, "sigh": 0, "rrh": 0, "odh": 0}],
@@ -315,11 +313,18 @@ def scale_check(run, seen, tag):
     qq = (b"\x03www\x00", 1, 1, None, None)
     long_lists = refexp.make_session(fp, [{"tps": 1000, "max": 10, "qrh": G.ALL_QRH, "sigh": G.ALL_SIGH, "rrh": 3, "odh": 3}],
                                      [("Q", {"cport": 1, "ra": [rr] * 65600, "qq": [qq] * 70000}, None), ("Q", {"cport": 2, "ra": [rr] * 3}, None)])
-    # …and single byte strings longer than the default stack (12 MiB): a malformed-message payload, RDATA, a name
     big = bytes([7]) * (12 * 1024 * 1024 + 1)
     big_strings = refexp.make_session(fp, [{"tps": 1000, "max": 10, "qrh": G.ALL_QRH, "sigh": G.ALL_SIGH, "rrh": 3, "odh": 3}],
                                       [("M", {"cport": 1, "pl": big}, None), ("Q", {"cport": 2, "qn": big, "ra": [(b"\x03www\x00", 1, 1, 300, big)]}, None)])
-    sessions = [many_blocks, long_lists, big_strings]
+    return [many_blocks, long_lists, big_strings]
+
+
+def scale_check(run, seen, tag):
+    """one output with more than 65536 blocks (max_block_items = 1), and one query/response whose sections hold more than 65536
+    resource records / questions, and one with byte strings of 12 MiB: counters, the library reader's view and the framing of the file (independent CBOR walk) must be
+    what the reference says.  (The Lean reader is not used here: it needs minutes on a file of 70 000 blocks.)"""
+    import cborgen
+    sessions = scale_sessions()
     for s, r in zip(sessions, run_sessions(run, sessions, need_rd=True, need_lean=False)):
         run.case(("scale", s[0][:80]), True, key=s[0][:200] + str(len(s[0]))); run.count("scale sessions")
         bad = judge_returns(s, r) + judge_files(s, r, tag=tag)
